@@ -60,6 +60,17 @@ func (l *countingListener) open() int64 {
 	return atomic.LoadInt64(&l.accepted) - atomic.LoadInt64(&l.closed)
 }
 
+// bigArg returns name, or (one time in three) name padded to a size around those at which transports and
+// writers change strategy: requests and answers of several goroutines then share the one connection
+// with messages of 1 KiB .. 70 KiB.
+func bigArg(r *rand.Rand, name string) string {
+	if r.Intn(3) != 0 {
+		return name
+	}
+	n := []int{1000, 1500, 4097, 5000, 8200, 16400, 33000, 66000, 70000}[r.Intn(9)]
+	return name + strings.Repeat("x", n)
+}
+
 type host struct {
 	addr  string
 	l     *countingListener
@@ -127,7 +138,7 @@ func (h *host) close() {
 }
 
 func c19(c *wk.Ctx) {
-	c.Note("rule", "a directory server plus two service-hosting servers (bus.StandAloneServer over counting listeners, four services each); each round creates a fresh session.NewSession and releases 4-32 goroutines through a barrier, each requesting Proxy(name) (or Object(ref)) for services behind the same and different endpoints, then calling the proxy; 2-6 further waves of 2-8 goroutines then use the same, established session. Oracle: the process does not crash (child), every request succeeds and the proxy answers f(token); at quiescence (decided by the quiescence detector) each hosting server has at most one open connection from the session, exactly one if it was used. Distinct non-trivial = distinct rounds in which some hosting server accepted at least two connections (the concurrent-dial path really ran).")
+	c.Note("rule", "a directory server plus two service-hosting servers (bus.StandAloneServer over counting listeners, four services each); each round creates a fresh session.NewSession and releases 4-32 goroutines through a barrier, each requesting Proxy(name) (or Object(ref)) for services behind the same and different endpoints, then calling the proxy (one call in three with an argument and an answer of 1-70 KiB); 2-6 further waves of 2-8 goroutines then use the same, established session. Oracle: the process does not crash (child), every request succeeds and the proxy answers f(token); at quiescence (decided by the quiescence detector) each hosting server has at most one open connection from the session, exactly one if it was used. Distinct non-trivial = distinct rounds in which some hosting server accepted at least two connections (the concurrent-dial path really ran).")
 	var progress int64
 	var w *world
 	var hosts []*host
@@ -230,14 +241,15 @@ func c19(c *wk.Ctx) {
 					p = p2
 				}
 				token := uint64(i)<<32 | uint64(g)
-				res, err := probe.MakeProbe(sess, p).Work(token, name)
+				arg := bigArg(r, name)
+				res, err := probe.MakeProbe(sess, p).Work(token, arg)
 				if err != nil && strings.Contains(err.Error(), "consumer blocked") {
 					atomic.AddInt64(&overload, 1)
 					return
 				}
-				if err != nil || res != svc.F(token, name) {
+				if err != nil || res != svc.F(token, arg) {
 					mu.Lock()
-					viols = append(viols, [2]string{"proxy=not-working", fmt.Sprintf("the proxy for %s does not work: %q %v", name, res, err)})
+					viols = append(viols, [2]string{"proxy=not-working", fmt.Sprintf("the proxy for %s does not work (argument of %d bytes): %.80q %v", name, len(arg), res, err)})
 					mu.Unlock()
 				} else if n := h.impls[name].ExecCount(token); n != 1 {
 					// a working proxy for the service is connected to THAT service's object
@@ -280,9 +292,10 @@ func c19(c *wk.Ctx) {
 							for q := 0; q < 6 && err == nil; q++ {
 								token := uint64(i)<<32 | uint64(1000+g) | uint64(atomic.AddInt64(&steady, 1))<<16
 								var res string
-								res, err = px.Work(token, name)
-								if err == nil && res != svc.F(token, name) {
-									err = fmt.Errorf("wrong result %q (the answer to another call)", res)
+								arg := bigArg(r, name)
+								res, err = px.Work(token, arg)
+								if err == nil && res != svc.F(token, arg) {
+									err = fmt.Errorf("wrong result %.80q (the answer to another call)", res)
 								}
 							}
 						}
